@@ -728,7 +728,13 @@ var ruleCloneChain = &core.Rule{ID: "R03.3", Min: 5,
 				okExit := false
 				if iff := core.IfOf(h); iff != nil {
 					if bo, ok := iff.Cond.(*ssa.BinOp); ok && bo.X == ssa.Value(pPhi) && core.IsNilConst(bo.Y) && (bo.Op == token.NEQ || bo.Op == token.EQL) {
-						okExit = true
+						// the side taken while p != nil is the one that stays in the loop
+						in := loopBlocks(h)
+						stay, leave := h.Succs[0], h.Succs[1]
+						if bo.Op == token.EQL {
+							stay, leave = leave, stay
+						}
+						okExit = in[stay] && !in[leave]
 					}
 				}
 				s.Check(okExit, "loop ends only at the root", c.Pos(h.Instrs[0].Pos()), "condition p != nil", "the ancestor loop does not run until the parent is nil: the chain could be cut short or overrun")
@@ -751,6 +757,16 @@ var ruleCloneChain = &core.Rule{ID: "R03.3", Min: 5,
 					okExit, body = true, h.Succs[0]
 				} else if bo.Op == token.EQL {
 					okExit, body = true, h.Succs[1]
+				}
+				// the side taken while p != nil is the one that stays in the loop, the other one leaves it
+				if in := loopBlocks(h); body != nil {
+					other := h.Succs[0]
+					if other == body {
+						other = h.Succs[1]
+					}
+					if !in[body] || in[other] {
+						okExit = false
+					}
 				}
 			}
 		}
@@ -1130,6 +1146,16 @@ var ruleParams = &core.Rule{ID: "R02.2", Min: 5,
 						vals = ph.Edges
 					} else {
 						vals = []ssa.Value{x.Val}
+					}
+					// a copy that is given parameters attaches them: one source is the formatted string
+					if psOf != nil && !core.IsNilConst(psOf) {
+						formatted := false
+						for _, v := range vals {
+							if call, ok := v.(*ssa.Call); ok && core.CalleeIs(&call.Call, "mime", "FormatMediaType") {
+								formatted = true
+							}
+						}
+						s.Check(formatted, g.Name()+": parameters given to the copy are attached", c.Pos(x.Pos()), "one source of the type string is mime.FormatMediaType(type, ps)", "the copy receives a parameter map but its type string never comes from mime.FormatMediaType: the sniffed charset is dropped from every result")
 					}
 					for i, v := range vals {
 						key := fmt.Sprintf("%s: type string of the clone, source #%d", g.Name(), i+1)
